@@ -181,6 +181,12 @@ def rule_linker_map(ck):
         rd = [c for c in ce.calls() if c.name.endswith("refresh_deferred") and c.bb in reg]
         sob = [c for c in ce.calls() if c.name.endswith("step_over_breakpoint") and c.bb in reg]
         ck.ob("mpt.linker_map", "continue_execution/LinkerMapFn/retries-deferred-after-stepping-off", len(rd) == 1 and bool(sob) and all(ce.dominates(s.bb, rd[0].bb) for s in sob), "", ce.loc(arm["LinkerMapFn"]))
+        # a library that went away takes its breakpoints out of the active list (they are parked, not forgotten), and
+        # a library that appears gets its parked breakpoints back, at every linker-map stop, after stepping off
+        park = [c for c in ce.calls() if c.name.endswith("BreakpointRegistry::park_unmapped_breakpoints") and c.bb in reg]
+        retry = [c for c in ce.calls() if c.name.endswith("BreakpointRegistry::enable_all_breakpoints") and c.bb in reg]
+        ok = len(park) == 1 and len(retry) == 1 and bool(sob) and all(ce.dominates(s_.bb, park[0].bb) for s_ in sob) and ce.dominates(park[0].bb, retry[0].bb)
+        ck.ob("mpt.linker_map", "continue_execution/LinkerMapFn/parks-unmapped-then-reinstalls-parked", ok, f"park={len(park)} reinstall={len(retry)}", ce.loc(arm["LinkerMapFn"]), what="breakpoints of a library that was unloaded stay registered at stale addresses (they never hit again after the library is loaded once more, and their un-patch later writes into whatever is mapped there), or parked breakpoints are not retried when their library appears")
         reg = ce.arm_region(i, arm["EntryPoint"]) | {arm["EntryPoint"]}
         eab = [c for c in ce.calls() if c.name.endswith("BreakpointRegistry::enable_all_breakpoints") and c.bb in reg]
         add = [c for c in ce.calls() if c.name.endswith("BreakpointRegistry::add_and_enable") and c.bb in reg]
@@ -192,6 +198,21 @@ def rule_linker_map(ck):
         ck.ob("mpt.linker_map", "continue_execution/EntryPoint/enables-all-and-installs-linker-map-breakpoint", ok, d, ce.loc(arm["EntryPoint"]))
         wr = [c for c in ce.calls() if c.name.endswith("WatchpointRegistry::refresh") and c.bb in reg]
         ck.ob("mpt.linker_map", "continue_execution/EntryPoint/refreshes-global-watchpoints", len(wr) == 1, "", ce.loc(arm["EntryPoint"]))
+    pk = [f for p, f in prog.fns.items() if p.endswith("BreakpointRegistry::park_unmapped_breakpoints")]
+    if ck.ob("mpt.linker_map", "park_unmapped_breakpoints/exists", len(pk) == 1, "", ""):
+        f = pk[0]
+        ck.saw(f)
+        rm = [c for c in f.calls() if re.search(r"HashMap::<K, V, S(, A)?>::remove$", c.name)]
+        au = [c for c in f.calls() if c.name.endswith("BreakpointRegistry::add_uninit")]
+        ni = [c for c in f.calls() if c.name.endswith("UninitBreakpoint::new_inherited")]
+        ok = len(rm) == 1 and len(au) == 1 and len(ni) == 1 and f.dominates(rm[0].bb, au[0].bb) and f.dominates(ni[0].bb, au[0].bb)
+        d = ""
+        if ok:
+            a = expr_str(expr_of(f, ni[0].args[0]), 8)
+            inner = " ".join(expr_str(expr_of(prog.fns[q], 0), 6) for q in prog.closures_of(f.path))
+            ok = "Address::Global" in a and ".place" in a and (".address" in a or ".address" in inner)
+            d = f"parked at {a}"
+        ck.ob("mpt.linker_map", "park_unmapped_breakpoints/parked-under-the-object-relative-address-of-its-place", ok, d, f.loc())
     rdf = [f for p, f in prog.fns.items() if p.endswith("::refresh_deferred") and "Debugger" in p]
     if ck.ob("mpt.linker_map", "refresh_deferred/exists", len(rdf) == 1, "", ""):
         f = rdf[0]
